@@ -5,7 +5,7 @@
 
 enum { G_LIFE = 1, G_REG = 2, G_MSG = 4, G_SUB = 8, G_PILL = 16, G_ARM = 32, G_CTX = 64, G_BATCH = 128, G_STASH = 256, G_BECOME = 512,
        G_SRC = 1024, G_ENV = 2048, G_SYS = 4096, G_REFS = 8192, G_FAULT = 16384, G_TICK = 32768, G_ILLEGAL = 65536, G_AUTOFREE = 131072,
-       G_QUIT = 262144, G_CTXCALL = 524288, G_PRIO = 1048576, G_BCAST = 2097152 };
+       G_QUIT = 262144, G_CTXCALL = 524288, G_PRIO = 1048576, G_BCAST = 2097152, G_BUCKET = 4194304, G_READY = 8388608, G_BADPARAM = 16777216, G_EPOLLFAULT = 33554432 };
 typedef struct {
     const char *prop; int nmods; unsigned groups, rules; int maxdev;
     const char *prelude;                 /* hex ops applied at reset (not counted in depth) */
@@ -15,6 +15,8 @@ typedef struct {
     unsigned acts;                       /* bitmask over A_* offered as armed actions */
     unsigned armcbs;                     /* bitmask over CB_* that can be armed */
     unsigned pats, topics;               /* bitmask of subscription patterns / publish topics */
+    unsigned kinds;                      /* bitmask of source kinds (G_SRC) */
+    unsigned srcflags;                   /* bitmask of source flag combinations offered: bit f = flags value f (1 AUTOCLOSE, 2 ONESHOT, 4 DUP) */
 } profile_t;
 static profile_t P;
 
@@ -31,7 +33,9 @@ static int enabled_ops(op_t *o, int max) {
         if (CX.exists || (P.groups & G_ILLEGAL)) EMIT(O_CTX_DEREG);
         if (CX.exists && !CX.finalized) EMIT(O_FINALIZE);
     }
-    if (CX.exists || (P.groups & G_CTX)) EMIT(O_DISPATCH);
+    /* task sources would run on pool threads (real concurrency): in this sequential world a module holding one is never made RUNNING */
+    int task_idle = 0; for (int s = 0; s < NM; s++) if (MD[s].present && MD[s].st == S_IDLE) for (int i = 0; i < MAXSRC; i++) if (MD[s].src[i].present && MD[s].src[i].kind == K_TASK) task_idle = 1;
+    if ((CX.exists || (P.groups & G_CTX)) && !(task_idle && !CX.looping) && !(task_idle && CX.looping)) EMIT(O_DISPATCH);
     if ((P.groups & G_QUIT) && (CX.looping ? !CX.quit : (P.groups & G_ILLEGAL) != 0)) { EMIT(O_QUIT, 1); }
     if ((P.groups & G_TICK) && CX.exists) EMIT(O_SET_TICK, !CX.tick);
     if ((P.groups & G_CTXCALL)) for (int k = 0; k < 5; k++) EMIT(O_CTXCALL, k);
@@ -44,9 +48,10 @@ static int enabled_ops(op_t *o, int max) {
         if (!have) continue;
         int st = m->st, ill = (P.groups & G_ILLEGAL) != 0;
         if (P.groups & G_LIFE) {
-            if (ill || st == S_IDLE || st == S_STOPPED) EMIT(O_START, s);
+            int hastask = 0; for (int i = 0; i < MAXSRC; i++) if (m->src[i].present && m->src[i].kind == K_TASK) hastask = 1;
+            if ((ill || st == S_IDLE || st == S_STOPPED) && !hastask) EMIT(O_START, s);
             if (ill || st == S_RUNNING) EMIT(O_PAUSE, s);
-            if (ill || st == S_PAUSED) EMIT(O_RESUME, s);
+            if ((ill || st == S_PAUSED) && !hastask) EMIT(O_RESUME, s);
             if (ill || st == S_RUNNING || st == S_PAUSED) EMIT(O_STOP, s);
             if (m->present || ill) EMIT(O_DEREG, s);
             if (m->present && m->evalmode == 2) EMIT(O_SET_EVAL, s);
@@ -70,6 +75,22 @@ static int enabled_ops(op_t *o, int max) {
         if (P.groups & G_PILL) for (int t = 0; t < NMO; t++) if (handle(t) && (MD[t].st == S_RUNNING || ill)) EMIT(O_PILL, s, t);
         if (P.groups & G_BECOME) { if (st == S_RUNNING || ill) { for (int h = 1; h <= 2; h++) if (m->nhs < 3) EMIT(O_BECOME, s, h); EMIT(O_UNBECOME, s); } }
         if (P.groups & G_BATCH) { for (int b = 0; b < 4; b++) if (BSZ[b] != m->batch_size) EMIT(O_BATCH_SIZE, s, b); for (int t = 0; t < 2; t++) if (t != m->batch_tmo) EMIT(O_BATCH_TMO, s, t); }
+        if (P.groups & G_SRC) for (int kd = 0; kd < NKIND; kd++) if (P.kinds & (1u << kd)) {
+            for (int key = 0; key < NKEYS[kd]; key++) {
+                int idx = find_src(s, kd, key);
+                if (kd == K_FD && !UFD[key].open_rd) continue;
+                if (kd == K_TASK && (st == S_RUNNING || st == S_ZOMBIE)) continue;          /* a task would start running on a pool thread: kept out of the sequential world */
+                if (idx < 0 || ill) for (int f = 0; f < 8; f++) if (P.srcflags & (1u << f)) {
+                    if ((f & 5) && kd != K_FD) continue;
+                    if (kd == K_FD) { int others = 0, granted = 0; for (int t = 0; t < NM; t++) for (int i = 0; i < MAXSRC; i++) if (MD[t].src[i].present && MD[t].src[i].kind == K_FD && MD[t].src[i].key == key) { others++; granted |= MD[t].src[i].flags & 1; }
+                        if (idx < 0 && ((f & 1) ? others > 0 : granted)) continue; }
+                    EMIT(O_SRC_REG, s, kd * 16 + key, f);
+                }
+                if (idx >= 0 || ill) EMIT(O_SRC_DEREG, s, kd * 16 + key);
+            }
+            if (P.groups & G_BADPARAM) EMIT(O_SRC_REG, s, kd * 16 + 15, 0);
+        }
+        if ((P.groups & G_BUCKET)) for (int b = 0; b < 5; b++) if (TBCFG[b].rate != m->tb_rate || TBCFG[b].burst != m->tb_burst) EMIT(O_BUCKET, s, b);
         if (P.groups & G_STASH) for (int k = 0; k < 5; k++) if (st == S_RUNNING || (ill && k == 0)) EMIT(O_UNSTASH, s, k);
         if ((P.groups & G_ARM) && dev < P.maxdev && m->present) for (int cb = 0; cb < NCB; cb++) if ((P.armcbs & (1u << cb)) && !m->armed[cb].act) {
             if (cb == CB_EVAL && !m->evalmode) continue;
@@ -96,6 +117,8 @@ static int enabled_ops(op_t *o, int max) {
     }
     if (P.groups & G_ENV) { for (int k = 0; k < 3; k++) if (shim_timers_armed() || 1) { if (k < 2 || (P.groups & G_TICK)) EMIT(O_ADVANCE, k); } }
     if ((P.groups & G_FAULT) && dev < P.maxdev) { if (!shim_inject_write_eagain) EMIT(O_INJECT, INJ_WRITE_EAGAIN); }
+    if ((P.groups & G_EPOLLFAULT) && dev < P.maxdev && CX.looping && !shim_inject_epoll_errno) { EMIT(O_INJECT, INJ_EPOLL_EINTR); EMIT(O_INJECT, INJ_EPOLL_EBADF); }
+    if (P.groups & G_READY) for (int k = 0; k < NUFD; k++) if (UFD[k].open_rd && UFD[k].bytes < 2) { int used = 0; for (int t = 0; t < NM; t++) if (find_src(t, K_FD, k) >= 0) used = 1; if (used) EMIT(O_READY, k); }
     if (P.groups & G_REFS) for (int i = 0; i < nret; i++) EMIT(O_RELEASE, i);
     return n;
 }
@@ -131,6 +154,9 @@ static void fmt_op(op_t op, char *b, size_t cap) {
     case O_BATCH_SIZE: snprintf(b, cap, "set_batch_size(%s,%zu)", A, BSZ[op.b & 3]); break;
     case O_BATCH_TMO: snprintf(b, cap, "set_batch_timeout(%s,%luns)", A, (unsigned long)TMO[op.b % 3]); break;
     case O_UNSTASH: snprintf(b, cap, "unstash(%s,%zu)", A, UNST[op.b % 5]); break;
+    case O_SRC_REG: snprintf(b, cap, "src_register(%s,%s#%d%s%s%s)", A, KN[(op.b >> 4) % NKIND], op.b & 15, (op.d & 1) ? ",AUTOCLOSE" : "", (op.d & 2) ? ",ONESHOT" : "", (op.d & 4) ? ",DUP" : ""); break;
+    case O_SRC_DEREG: snprintf(b, cap, "src_deregister(%s,%s#%d)", A, KN[(op.b >> 4) % NKIND], op.b & 15); break;
+    case O_BUCKET: snprintf(b, cap, "set_tokenbucket(%s,rate=%d,burst=%d)", A, TBCFG[op.b % 5].rate, TBCFG[op.b % 5].burst); break;
     case O_ARM: snprintf(b, cap, "arm(%s.%s: %s %d)", A, CBN[(op.b >> 5) & 3], AN[(op.b & 31) < A_MAX ? (op.b & 31) : 0], op.d); break;
     case O_READY: snprintf(b, cap, "make_readable(fd%d)", op.a); break;
     case O_ADVANCE: snprintf(b, cap, "advance(%luns)", (unsigned long)ADV[op.a & 3]); break;
